@@ -647,7 +647,12 @@ Fixpoint rr_loop (st : hg) (x : Z) (is_ : list Z) : hg * bool :=
   | [] => (st, false)
   | i :: rest =>
     match get_round st i with
-    | None => (st, false)                                   (* break *)
+    | None =>
+      (* missing RoundInfo: break, except (after a Reset) at or below the lower bound: continue *)
+      match st.(lower_bound) with
+      | Some lb => if i <=? lb then rr_loop st x rest else (st, false)
+      | None => (st, false)
+      end
     | Some tr =>
       match get_peerset st i with
       | None => (fail st, false)
